@@ -117,7 +117,7 @@ def run(ctx):
                 'a case = one rebin or one convolved file; non-trivial = filter and grid overlap')
     ctx.assume('oracle: exact rational integration of the piecewise-linear response on the float inputs; midpoints formed in float64 as the statement\'s midpoints',
                'tolerance 1e-9 relative + 1e-12 of sum|R| (trapezium sums in float64)', 'strictly monotone grids (duplicate frequencies outside the quantifier)')
-    ctx.require_events('Filter.rebin:post', 'Filter.normalize:post', 'file:checked', 'flat-spectrum', 'filter:read-from-text', 'rebin:same-filter-again', 'reconvolved:same-name-new-response')
+    ctx.require_events('Filter.rebin:post', 'Filter.normalize:post', 'file:checked', 'flat-spectrum', 'filter:read-from-text', 'rebin:same-filter-again', 'reconvolved:same-name-new-response', 'normalize:filters-sharing-one-array')
     ctx.require_regimes('grid:not-in-Hz', 'filter:ascending-nu', 'filter:descending-nu', 'grid:ascending-nu', 'grid:descending-nu', 'grid:coarser', 'grid:finer',
                         'overlap:partial-lo', 'overlap:partial-hi', 'overlap:contains', 'overlap:contained', 'edges:coincide', 'pkg:v1', 'pkg:v2', 'pkg:mixed-grids', 'filter:not-normalised', 'grids:nearly-equal')
     d = ctx.newdir('c06')
@@ -161,6 +161,36 @@ def run(ctx):
         else:
             f = convcheck.build_filter('f', fw, resp, np.sqrt(a * b), descending_nu=desc, normalize=False)
         ctx.regime('filter:descending-nu' if desc else 'filter:ascending-nu')
+        if it % 4 == 2:
+            # several filters alive at once, built from one and the same response array (a common shape used for several
+            # bands): normalising one must not change another (each keeps the unit integral its own contract established)
+            from sedfitter.filter import Filter
+            shared = np.array(resp, float)
+            shared0 = shared.copy()
+            fs_ = []
+            for jf, (scale_, view_) in enumerate([(1.0, shared), (1.9, shared), (0.6, shared[::-1])]):
+                g_ = Filter()
+                g_.name = 'sh%d' % jf
+                g_.central_wavelength = np.sqrt(a * b) * u.micron
+                nu_ = pkg.C_UM_HZ / np.asarray(fw, float) * scale_
+                g_.nu = (nu_ if view_ is shared else nu_[::-1]) * u.Hz
+                g_.response = view_
+                fs_.append(g_)
+            try:
+                kept = []
+                for g_ in fs_:
+                    g_.normalize()
+                    kept.append(np.array(g_.response, float, copy=True))
+                ctx.event('normalize:filters-sharing-one-array')
+                for jf, (g_, k_) in enumerate(zip(fs_, kept)):
+                    if not probe.same(np.asarray(g_.response, float), k_):
+                        ctx.violation('normalize:changes-another-filter', 'normalising a filter changed the response of another live filter built from the same array',
+                                      {'wav': fw, 'response': shared0, 'filter': jf, 'was': k_, 'now': np.asarray(g_.response, float)})
+                        break
+                if not probe.same(shared, shared0):
+                    ctx.event('normalize:callers-array-modified')
+            except Exception as exc:
+                ctx.violation('normalize-raised', 'normalize raised: %r' % (exc,), {'wav': fw, 'response': resp})
         if rng.random() < 0.5:
             try:
                 f.normalize()
